@@ -71,7 +71,7 @@ MANIFEST_CHECKS_T = {
     "C05": {
         "text": "Seeded search over tensor programs (depth 1..8) on a pool of per-tensor and per-axis QBytesTensors (qint8, both float8 types, saturating scales included), packed QBitsTensors (qint2/qint4, axis 0/-1, grouped or not), plain tensors and scalars, ranks 1-4, three dtypes; results re-enter the pool, so operands are views of views, transposed-then-sliced, re-quantized, rescaled. Every intercepted operation and a fixed list of pass-through functions, state_dict round trips and deepcopy. Per step the result is compared with the same torch call on the operands dequantized immediately before it: value equality for data movement, 2 ulp for rescaling and dtype moves, one output step for re-quantizing ops, an analytic accumulation bound against a float64 reference for contractions; whenever the float call succeeds the quantized one must too, bar the two documented refusals. Evidence of absence over the explored programs, not proof.",
         "design_ref": "DESIGN.md section 4 (Engine T), 5 (C05), 3.4 (shadow), 9 (per-step reading)",
-        "note": "Trusted: torch CPU kernels and promotion rules (two unsound private kernels are intercepted and reported, see assumptions). Aliasing across an in-place copy_ is judged against the float program for two cases only: views of the destination must follow it, tensors that are separate in the float program must not change (the operation that made them share memory is named in the violation class).",
+        "note": "Trusted: torch CPU kernels and promotion rules (two unsound private kernels are intercepted and reported, see assumptions). An operation that is not in-place must leave its quantized operands bit-identical, and an in-place call the float program refuses must leave its destination alone. Aliasing across an in-place copy_ is judged against the float program for two cases only: views of the destination must follow it, tensors that are separate in the float program must not change (the operation that made them share memory is named in the violation class).",
         "technique": "deterministic simulation: seeded program search with a float shadow per step, replayable plans, delta-debugged counterexamples",
     },
     "C06": {
